@@ -68,33 +68,9 @@ RNext == RPickO \/ RPickA
 (***************************************************************************)
 
 (***************************************************************************)
-(* Open deviation (residue of the same mechanism at two sibling sites):    *)
-(* the set-based fast path of MultiValuedValue for unions of ten or more   *)
-(* members hashes the raw objects and catches TypeError only               *)
-(* (value.py:1971-1979 _get_known_subvals, :2014-2018 can_assign): an      *)
-(* object whose __hash__ raises anything else still makes unite_values /   *)
-(* can_assign with such a union raise.  The class covers exactly: the      *)
-(* operation raised the object's own exception, a KnownValue of that       *)
-(* object occurs in an operand and one operand is a big union.             *)
+(* The residue of that mechanism in the set-based fast path of             *)
+(* MultiValuedValue for unions of ten or more members                      *)
+(* (big-union-fast-path-hash-exception-propagates) is repaired by 426a2ab: *)
+(* no raising value operation is excused any more.                         *)
 (***************************************************************************)
-RECURSIVE MentionsOdd(_, _), AnyMentions(_, _), AnyMentionsT(_, _)
-AnyMentions(ts, n) == \E i \in 1..Len(ts) : MentionsOdd(ts[i], n)
-AnyMentionsT(rs, n) == \E i \in 1..Len(rs) : MentionsOdd(rs[i].t, n)
-MentionsOdd(t, n) ==
-    CASE t.k = "known"     -> t.o.c = "odd" /\ t.o.v = n
-      [] t.k = "union"     -> AnyMentions(t.ms, n)
-      [] t.k = "generic"   -> AnyMentions(t.args, n)
-      [] t.k = "seq"       -> AnyMentionsT(t.ms, n)
-      [] t.k \in {"subclass", "unpacked"} -> MentionsOdd(t.t, n)
-      [] t.k = "annotated" -> MentionsOdd(t.t, n) \/ AnyMentionsT(t.md, n)
-      [] t.k = "typeddict" -> AnyMentionsT(t.items, n)
-      [] t.k = "dictinc"   -> \E i \in 1..Len(t.kvs) : MentionsOdd(t.kvs[i].key, n) \/ MentionsOdd(t.kvs[i].val, n)
-      [] t.k = "tvar"      -> AnyMentions(t.bound, n) \/ AnyMentions(t.cons, n)
-      [] t.k = "callable"  -> MentionsOdd(t.ret, n) \/ \E i \in 1..Len(t.ps) : AnyMentions(t.ps[i].t, n)
-      [] OTHER             -> FALSE
-HashExc == "RuntimeError: __hash__ raises"
-Dev_BigUnionHashPropagates(a, b, exc) ==
-    /\ exc = HashExc
-    /\ MentionsOdd(a, "hashraises_rt") \/ MentionsOdd(b, "hashraises_rt")
-    /\ IsBigUnion(a) \/ IsBigUnion(b)
 =============================================================================
